@@ -327,11 +327,24 @@ fn run(ctx: &mut Ctx) {
         corpus: true,
         corpus_truncs: t.pick(16, 64),
         random_atoms: t.pick(500_000, 5_000_000),
+        scale_max: 8192,
         ..Plan::default()
     };
     for_each_input(ctx, &plan, &mut |ctx, input, src, r| {
         if !run_case(ctx, &mut loc, input, None, src) {
             return false;
+        }
+        if src == Src::Scale {
+            // long pieces: whole pieces inside one construct
+            for piece in crate::gen::SCALE_PIECES {
+                if *piece < input.len() && !run_case(ctx, &mut loc, input, Some(crate::sources::cuts_for_piece(input.len(), *piece, 0)), src) {
+                    return false;
+                }
+            }
+            let cuts = crate::sources::big_random_cuts(r, input.len(), 0);
+            if !run_case(ctx, &mut loc, input, Some(cuts), src) {
+                return false;
+            }
         }
         // buffered source: piece size 1 for every non-enumerated input and a sample of the enumerated ones
         if !src.exhaustive() || src == Src::Pool || r.chance(1, 16) {
